@@ -2,6 +2,7 @@ import CorsVerif.Proofs.Pattern
 import CorsVerif.Proofs.ACRH
 import CorsVerif.Proofs.Accepted
 import CorsVerif.Proofs.IxRefine
+import CorsVerif.Proofs.IxTreeRefine
 import CorsVerif.Spec.Fetch
 /-
   C17 — No input can crash configuration or request handling.  (PARTIAL)
@@ -395,6 +396,58 @@ theorem C17_ix_originAllowed (t : Node) (str : Bytes) :
     Ix.originAllowed t str = .ok (match Lex.parse str with | none => false | some o => Tree.contains t o) :=
   Ix.originAllowed_refines t str
 
+
+/-! ### P9. The configuration-time half of the radix tree, at index level (Model/IxTree.lean)
+
+A node keeps its five fields as in Go (`Ix.INode`: `suf`, `edges`, `children`, `schemes`, `ports`), so the two
+invariants the doc comment of `origins.node` states — `len(edges) == len(children)`, `len(schemes) == len(ports)` —
+are statements (`Ix.WFI`) instead of being built into the representation.  `Ix.conc n` is the slice representation
+of the list-level tree `n`.  Each theorem says: run on `conc n`, the index-level program returns `.ok` (no index or
+slice expression out of range, every loop ends) of the slice representation of the list-level result. -/
+
+/-- **P9 (node.add).** `n.ports[i]`, `n.ports[i] = ports`, both `insert`s and `deleteSameSign`'s `s[i:]` / `s[:i]`. -/
+theorem C17_ix_add (S : List (Bytes × List Int)) (scheme : Bytes) (port : Int) (wild : Bool) :
+    Ix.addI (S.map Prod.fst) (S.map Prod.snd) scheme port wild =
+      .ok ((Node.addPort S scheme port wild).map Prod.fst, (Node.addPort S scheme port wild).map Prod.snd) :=
+  Ix.addI_refines S scheme port wild
+/-- **P9 (deleteSameSign).** For every slice, sorted or not. -/
+theorem C17_ix_deleteSameSign (s : List Int) (v : Int) : Ix.deleteSameSignI s v = .ok (Node.deleteSameSign s v) :=
+  Ix.deleteSameSignI_refines s v
+/-- **P9 (node.upsertEdge).** Both `insert`s, `n.children[i] = child` and the returned `&n.children[i]`. -/
+theorem C17_ix_upsertEdge (K : List (Nat × Node)) (label : Nat) (child : Node) :
+    Ix.upsertEdgeI (K.map Prod.fst) (K.map (fun e => Ix.conc e.2)) label (Ix.conc child) =
+      .ok ((Node.upsert label child K).map Prod.fst, (Node.upsert label child K).map (fun e => Ix.conc e.2),
+        Ix.lowerBound Ix.natLt label (K.map Prod.fst)) :=
+  Ix.upsertEdgeI_refines K label child
+/-- **P9 (Tree.Insert).** For every tree and every pattern whose host value is not empty (P1): `s[0]`, `s[1:]`,
+`n.children[i]`, `lastByte`, `splitAtCommonSuffix`, `add`, `upsertEdge` never go out of range, and the loop ends
+after at most depth-of-the-tree iterations. -/
+theorem C17_ix_treeInsert (t : Node) (p : Pattern) (h : p.value ≠ []) :
+    Ix.treeInsert (Ix.conc t) p = .ok (Ix.conc (Tree.insert t p)) := Ix.treeInsert_refines t p h
+/-- **P9 (building the tree of a configuration).** Inserting, from the zero `Tree`, any list of patterns that
+`ParsePattern` returned (for any answers of the IDNA / public-suffix oracles) never panics, yields the slice
+representation of the list-level tree (the one C01 is proved about), and that tree satisfies both length invariants
+at every node. -/
+theorem C17_ix_treeBuild (ext : Ext) (ps : List Pattern) (h : ∀ p ∈ ps, ∃ s, parsePattern ext s = .ok p) :
+    Ix.buildI ps Ix.INode.zero = .ok (Ix.conc (ps.foldl Tree.insert Node.empty)) ∧
+    Ix.WFI (Ix.conc (ps.foldl Tree.insert Node.empty)) := by
+  refine ⟨?_, Ix.WFI_conc _⟩
+  rw [← Ix.conc_empty]
+  apply Ix.buildI_refines
+  intro p hp
+  obtain ⟨s, hs⟩ := h p hp
+  exact (C17_value_nonempty ext s p hs).1
+/-- **P9 (the length invariants).** The slice representation of every list-level tree has `len(edges) ==
+len(children)` and `len(schemes) == len(ports)` at every node. -/
+theorem C17_node_lengths (t : Node) : Ix.WFI (Ix.conc t) := Ix.WFI_conc t
+/-- **P9 (node.elems, Tree.Elems).** `n.schemes[i]` for `i` ranging over `n.ports`, `n.children[i]`; the recursion ends. -/
+theorem C17_ix_treeElems (t : Node) : Ix.treeElems (Ix.conc t) = .ok (Tree.elems t) := Ix.treeElems_refines t
+
+/-- Not vacuous: on slices that violate the invariants the checked programs do report the panic. -/
+example : Ix.elemsSchemes [] [] [[0]] 0 = .error () := by rfl
+example : Ix.nodeContainsI [[104]] [] [104] 0 false = .error () := by rfl
+example : Ix.treeInsert Ix.INode.zero { (default : Pattern) with value := [] } = .error () := by rfl
+
 /-- The checked operations do report what Go would panic on (the theorems above are not vacuous): reading past
 the end, an inverted slice, `parseScheme` without its `len(str) == 0 ||` guard, `lastByte` without its guard. -/
 example : Ix.idx [1, 2, 3] 3 = .error () := by rfl
@@ -431,6 +484,12 @@ transliteration was written from (Gen/Facts.lean carries today's texts in the co
   * `origins.Parse|func(str string) (Origin, bool) { const maxOriginLen = maxSchemeLen + len(schemeHostSep) + maxHostPortLen + 1 if len(str) > maxOriginLen { return zeroOrigin, false } scheme, str, ok := parseScheme(str) if !ok { return zeroOrigin, false } str, ok = strings.CutPrefix(str, schemeHostSep) if !ok { return zeroOrigin, false } host, str, ok := fastParseHost(str) if !ok { return zeroOrigin, false } var port int if len(str) > 0 { str, ok = strings.CutPrefix(str, string(hostPortSep)) if !ok { return zeroOrigin, false } port, str, ok = parsePort(str) if !ok || str != "" { return zeroOrigin, false } } o := Origin{ Scheme: scheme, Host: host, Port: port, } return o, true }`
   * `origins.(*Tree).Contains|func(o *Origin) bool { host := o.Host.Value n := &t.root for { label, ok := lastByte(host) if !ok { return n.contains(o.Scheme, o.Port, false) } if n.contains(o.Scheme, o.Port, true) { return true } i, found := slices.BinarySearch(n.edges, label) if !found { return false } n = &n.children[i] prefixOfHost, _, suf := splitAtCommonSuffix(host, n.suf) if len(suf) != len(n.suf) { return false } host = prefixOfHost } }`
   * `origins.(*node).contains|func(scheme string, port int, wildcardSubs bool) (found bool) { wildcardPort := wildcardPort if wildcardSubs { port -= portOffset wildcardPort -= portOffset } i, found := slices.BinarySearch(n.schemes, scheme) if !found { return } ports := n.ports[i] _, found = slices.BinarySearch(ports, port) if found { return } _, found = slices.BinarySearch(ports, wildcardPort) return }`
+  * `origins.(*Tree).Insert|func(p *Pattern) { s := p.HostPattern.Value var wildcardSubs bool if s[0] == '*' { wildcardSubs = true s = s[1:] } n := &t.root for { labelToChild, ok := lastByte(s) if !ok { n.add(p.Scheme, p.Port, wildcardSubs) return } if n.contains(p.Scheme, p.Port, true) { return } i, found := slices.BinarySearch(n.edges, labelToChild) if !found { child := node{suf: s} child.add(p.Scheme, p.Port, wildcardSubs) n.upsertEdge(labelToChild, child) return } child := &n.children[i] prefixOfS, prefixOfChildSuf, suf := splitAtCommonSuffix(s, child.suf) labelToGrandChild1, ok := lastByte(prefixOfChildSuf) if !ok { s = prefixOfS n = child continue } grandChild1 := node{ suf: prefixOfChildSuf, edges: child.edges, children: child.children, schemes: child.schemes, ports: child.ports, } child = n.upsertEdge(labelToChild, node{suf: suf}) child.upsertEdge(labelToGrandChild1, grandChild1) labelToGrandChild2, ok := lastByte(prefixOfS) if !ok { child.add(p.Scheme, p.Port, wildcardSubs) return } grandChild2 := node{suf: prefixOfS} grandChild2.add(p.Scheme, p.Port, wildcardSubs) child.upsertEdge(labelToGrandChild2, grandChild2) return } }`
+  * `origins.(*node).add|func(scheme string, port int, wildcardSubs bool) { wildcardPort := wildcardPort if wildcardSubs { port -= portOffset wildcardPort -= portOffset } if n.contains(scheme, port, wildcardSubs) { return } i, found := slices.BinarySearch(n.schemes, scheme) if !found { n.schemes = insert(n.schemes, i, scheme) n.ports = insert(n.ports, i, []int{port}) return } ports := n.ports[i] if port == wildcardPort { ports = deleteSameSign(ports, port) } ports = append(ports, port) slices.Sort(ports) n.ports[i] = ports }`
+  * `origins.(*node).upsertEdge|func(label byte, child node) *node { i, found := slices.BinarySearch(n.edges, label) if !found { n.edges = insert(n.edges, i, label) n.children = insert(n.children, i, child) return &n.children[i] } n.children[i] = child return &n.children[i] }`
+  * `origins.deleteSameSign|func(s []int, v int) []int { i, _ := slices.BinarySearch(s, 0) if v < 0 { return s[i:] } return s[:i] }`
+  * `origins.(*node).elems|func(dst *[]string, suf string) { suf = n.suf + suf host := suf if strings.IndexByte(host, hostPortSep) >= 0 { host = "[" + host + "]" } for i, ports := range n.ports { scheme := n.schemes[i] for _, port := range ports { var maybeWildcard string if port < 0 { maybeWildcard = subdomainWildcard port += portOffset } var s string switch port { case 0: s = scheme + schemeHostSep + maybeWildcard + host case wildcardPort: s = scheme + schemeHostSep + maybeWildcard + host + string(hostPortSep) + portWildcard default: s = scheme + schemeHostSep + maybeWildcard + host + string(hostPortSep) + strconv.Itoa(port) } *dst = append(*dst, s) } } for i := range n.children { n.children[i].elems(dst, suf) } }`
+  * `origins.(*Tree).Elems|func() []string { var res []string t.root.elems(&res, "") slices.Sort(res) return res }`
 -/
 def auditedBodies : List Bytes := [
   Spec.b "origins.parseScheme|04a7c4ffcf12f0724767ced4",
@@ -450,7 +509,13 @@ def auditedBodies : List Bytes := [
   Spec.b "util.(SortedSet).IndexAfter|678117c59beca02b1cce59bc",
   Spec.b "origins.Parse|08f500fa72f0663bc058fa76",
   Spec.b "origins.(*Tree).Contains|77792374ce1547a86a9c22a6",
-  Spec.b "origins.(*node).contains|7c33deaa5f428dcb89cf28d9"
+  Spec.b "origins.(*node).contains|7c33deaa5f428dcb89cf28d9",
+  Spec.b "origins.(*Tree).Insert|57f28c26e1a856b8b0878e58",
+  Spec.b "origins.(*node).add|f1375b1d624227a291a589d4",
+  Spec.b "origins.(*node).upsertEdge|6d2ec1d4f4cd6a7037f60795",
+  Spec.b "origins.deleteSameSign|db1637adf0db2548322c8f8c",
+  Spec.b "origins.(*node).elems|80a20c88e601c31687bce10e",
+  Spec.b "origins.(*Tree).Elems|d5dd04a5b28151afd887304a"
 ]
 
 /-- **C17 (bodies).** The functions modelled at index level read, today, exactly as they did when the
@@ -481,5 +546,12 @@ theorem C17_ix_bodies : Facts.cors_ixBodies = auditedBodies := by decide +kernel
 #print axioms C17_ix_treeContains
 #print axioms C17_ix_originAllowed
 #print axioms C17_ix_bodies
+#print axioms C17_ix_add
+#print axioms C17_ix_deleteSameSign
+#print axioms C17_ix_upsertEdge
+#print axioms C17_ix_treeInsert
+#print axioms C17_ix_treeBuild
+#print axioms C17_node_lengths
+#print axioms C17_ix_treeElems
 
 end Cors
